@@ -267,22 +267,27 @@ func (w *world) check(when string) {
 			return
 		}
 		if since >= ttl {
-			want, werr := render(w.fam.Variants[w.processed].Comp, a, false)
+			// ground truth is what the file holds (the handler has been told about every save)
+			target := w.processed
+			if w.fileVar >= 0 {
+				target = w.fileVar
+			}
+			want, werr := render(w.fam.Variants[target].Comp, a, false)
 			if werr != nil {
 				rc.Fail("harness", "normal render failed: %v", werr)
 				return
 			}
 			if got != want {
 				sig := "C16/dev-differs-from-fresh-build"
-				if w.c == w.processed {
+				if w.c == target {
 					sig = "C16/literal-round-trip"
 				}
-				rc.Fail(sig, "%s %s args#%d: compiled v%d reading the text file of v%d (edit path: %s) renders\n  %q\na fresh build of v%d renders\n  %q\n compiled source:\n%s\n edited source:\n%s\n trace: %s",
-					w.fam.Name, when, ai, w.c, w.processed, w.ops(w.c, w.processed), got, w.processed, want, w.fam.Variants[w.c].Source, w.fam.Variants[w.processed].Source, strings.Join(w.trace, "\n  "))
+				rc.Fail(sig, "%s %s args#%d: the file holds v%d and the handler has been told; compiled v%d (text file last written for v%d; edit path: %s) renders\n  %q\na fresh build of v%d renders\n  %q\n compiled source:\n%s\n edited source:\n%s\n trace: %s",
+					w.fam.Name, when, ai, target, w.c, w.processed, w.ops(w.c, target), got, target, want, w.fam.Variants[w.c].Source, w.fam.Variants[target].Source, strings.Join(w.trace, "\n  "))
 				return
 			}
 			w.k.Count("renders_compared_after_ttl", 1)
-			if w.c != w.processed {
+			if w.c != target {
 				w.k.Count("probe_text_only_edit_rendered_by_old_binary", 1)
 			}
 		} else {
